@@ -14,6 +14,36 @@ from .astutil import subst, docstring_free
 from .loader import AnalysisError, unparse
 
 
+def lift_value_choice(e):
+    """``(a or b) OP c`` chooses the compared *value* by the truth of ``a``:
+    rewrite comparisons over or/and/conditional operands into a conditional
+    expression over plain comparisons, so that the atoms stay comparisons
+    between parameters."""
+    if not (isinstance(e, ast.Compare) and len(e.ops) == 1):
+        return e
+    for side in ('left', 'right'):
+        x = e.left if side == 'left' else e.comparators[0]
+
+        def with_(v):
+            if side == 'left':
+                return ast.Compare(left=v, ops=e.ops,
+                                   comparators=e.comparators)
+            return ast.Compare(left=e.left, ops=e.ops, comparators=[v])
+
+        if isinstance(x, ast.BoolOp) and len(x.values) == 2:
+            a, b = x.values
+            if isinstance(x.op, ast.Or):
+                return ast.IfExp(test=a, body=lift_value_choice(with_(a)),
+                                 orelse=lift_value_choice(with_(b)))
+            return ast.IfExp(test=a, body=lift_value_choice(with_(b)),
+                             orelse=lift_value_choice(with_(a)))
+        if isinstance(x, ast.IfExp):
+            return ast.IfExp(test=x.test,
+                             body=lift_value_choice(with_(x.body)),
+                             orelse=lift_value_choice(with_(x.orelse)))
+    return e
+
+
 class _Return(Exception):
 
     def __init__(self, value):
@@ -104,6 +134,9 @@ class BoolFn:
             for v in (e.test, e.body, e.orelse):
                 self._collect_expr(v)
             return
+        le = lift_value_choice(e)
+        if le is not e:
+            return self._collect_expr(le)
         try:
             key, _ = self.atomizer(e)
         except _Opaque:
@@ -145,6 +178,9 @@ class BoolFn:
         if isinstance(e, ast.IfExp):
             return self._ev(e.body if self._ev(e.test, val) else e.orelse,
                             val)
+        le = lift_value_choice(e)
+        if le is not e:
+            return self._ev(le, val)
         key, pol = self.atomizer(e)
         return val[key] == pol
 
@@ -197,6 +233,9 @@ def expr_atoms(expr, atomizer):
             for v in (e.test, e.body, e.orelse):
                 rec(v)
             return
+        le = lift_value_choice(e)
+        if le is not e:
+            return rec(le)
         k, _ = atomizer(e)
         if k not in keys:
             keys.append(k)
